@@ -5,7 +5,8 @@ VARIABLE l
 Rec == ndJsonDeserialize(IOEnv.TRACE)
 \* the position never exceeds the input, whatever happened (C02 bound)
 PosOK(e) == e.obs.p \notin {"ok", "err"} \/ e.obs.pos <= Len(e.in.buf)
-EventOK(e) == FObsOK(e.obs, AccExpect(e.name, TRUE, e.in.buf, e.in.pos)) /\ PosOK(e)
+EventOK(e) == /\ FObsOK(e.obs, AccExpect(e.name, TRUE, e.in.buf, e.in.pos)) /\ PosOK(e)
+              /\ (e.fam = "probe" => e.obs.opos = e.in.pos)          \* C04!ProbeExpect
 Init == l = 1
 Next == /\ l <= Len(Rec) /\ l' = l + 1
         /\ IF EventOK(Rec[l]) THEN TRUE ELSE PrintT(<<"MISMATCH", l, ToJson(Rec[l])>>)
